@@ -257,9 +257,37 @@ class Inliner:
                 it.context_expr = T().visit(it.context_expr)
         return node
 
+    def hoist(self, s, stack):
+        """`recv.method(..., _helper(args), ...)` / `T = f(..., _helper(args), ...)`: when every other argument is a plain name / constant /
+        attribute (so that evaluating the helper first changes nothing), the helper call is bound to a fresh name in front of the statement."""
+        call = s.value if isinstance(s, (ast.Expr, ast.Assign)) and isinstance(s.value, ast.Call) else None
+        if call is None or self.helper(call, stack) is not None:
+            return None
+        simple = lambda e: isinstance(e, (ast.Name, ast.Constant)) or (isinstance(e, ast.Attribute) and simple(e.value))
+        if not (simple(call.func) or (isinstance(call.func, ast.Attribute) and simple(call.func.value))):
+            return None
+        args = list(call.args) + [k.value for k in call.keywords]
+        idx = [k for k, a in enumerate(args) if isinstance(a, ast.Call) and self.helper(a, stack) is not None and self.expr_helper(self.helper(a, stack)) is None]
+        if len(idx) != 1 or not all(simple(a) for k, a in enumerate(args) if k != idx[0]):
+            return None
+        self.counter += 1
+        tmp = f"__hoisted{self.counter}"
+        inner = args[idx[0]]
+        pre = ast.copy_location(ast.Assign(targets=[ast.Name(id=tmp, ctx=ast.Store())], value=inner), s)
+        ref = ast.copy_location(ast.Name(id=tmp, ctx=ast.Load()), inner)
+        if idx[0] < len(call.args):
+            call.args[idx[0]] = ref
+        else:
+            call.keywords[idx[0] - len(call.args)].value = ref
+        return [pre, s]
+
     def block(self, stmts, stack):
         out = []
+        work = []
         for s in stmts:
+            h = self.hoist(s, stack) if len(stack) <= MAX_DEPTH and isinstance(s, (ast.Expr, ast.Assign)) else None
+            work.extend(h if h is not None else [s])
+        for s in work:
             if len(stack) <= MAX_DEPTH:
                 rep = None
                 if isinstance(s, ast.Assign) and isinstance(s.value, ast.Call):
